@@ -162,6 +162,18 @@ def gen():
     if 'pub(crate)staticrefWORD_ID_LITERAL:Regex=Regex::new(r"^U?\\d+$").unwrap();' not in pr:
         raise F.FactError("WORD_ID_LITERAL is no longer ^U?\\d+$")
     out.append('Definition unit_literal_rule : string := "whole-unit ^U?[0-9]+$".\n')
+    # ---- the order in which the kinds of plugins are set up over the grammar (struct fields are evaluated in source order)
+    pm = F.strip_comments(F.src("sudachi/src/plugin/mod.rs"))
+    lb = _norm(F.fn_body(pm, "load", "plugin/mod.rs"))
+    mo = re.search(r"letplugins=Plugins\{(.*?)\};Ok\(plugins\)", lb)
+    if not mo:
+        raise F.FactError("Plugins::load is no longer `let plugins = Plugins { <kind>: load_plugins_of(cfg, grammar)..., }; Ok(plugins)`")
+    fields = re.findall(r'([a-z_]+):load_plugins_of\(cfg,grammar\)\.map_err\(\|e\|e\.with_context\("([a-z_]+)"\)\)\?,?', mo.group(1))
+    rest = re.sub(r'([a-z_]+):load_plugins_of\(cfg,grammar\)\.map_err\(\|e\|e\.with_context\("([a-z_]+)"\)\)\?,?', "", mo.group(1))
+    if rest or sorted(f for f, _ in fields) != ["connect_cost", "input_text", "oov", "path_rewrite"] or any(f != c for f, c in fields):
+        raise F.FactError("Plugins::load no longer sets up exactly connect_cost / input_text / oov / path_rewrite by load_plugins_of(cfg, grammar), one after the other")
+    out.append("(* order in which Plugins::load sets the kinds of plugins up over the (mutable) grammar *)\n")
+    out.append("Definition plugin_setup_order : list string := [%s].\n" % "; ".join('"%s"' % f for f, _ in fields))
     # ---- the public accessors through which a morpheme reports its dictionary
     mo = F.strip_comments(F.src("sudachi/src/analysis/morpheme.rs"))
     di = _norm(F.fn_body(mo, "dictionary_id", "analysis/morpheme.rs"))
